@@ -10,12 +10,17 @@ REGISTRATION = {
     "category": "proof",
     "text": "Kernel-checked theorems over a Lean model of llm.EstimateGPULayers / PredictServerFit (admission "
             "filter, round-robin placement with GPUs dropping out, output layer, full/partial graph switch, "
-            "overflow accounting, summaries) with uint64 wrap-around made explicit: per-GPU allocation + overhead "
-            "<= free, layer-count bounds, split sums to the layer count, total >= VRAM part, CPU => 0 layers, "
-            "fit => all requested layers placed. The model is tied to the code on every run: synthetic GGUFs "
-            "through the real WriteGGUF/Decode/GraphSize/GroupLayers, full MemoryEstimate (incl. unexported "
-            "fields) and PredictServerFit compared exactly with the oracle, boundaries of the estimator's "
-            "comparisons found by bisection on the real code; every clause is also evaluated on the real result.",
+            "overflow accounting, summaries; GpuInfoList.ByLibrary grouping; llmServer.EstimatedVRAMByGPU) and of "
+            "the scheduler's Scheduler.updateFreeSpace, with uint64 wrap-around made explicit: per-GPU allocation + "
+            "overhead <= free, layer-count bounds, split sums to the layer count, total >= VRAM part, CPU => 0 "
+            "layers, fit => all requested layers placed, ByLibrary partitions the list into non-empty groups, the "
+            "scheduler's adjusted free figure never exceeds the reported one, and the composition (estimate on "
+            "adjusted GPUs => allocation + overhead <= REPORTED free; planned + predicted <= total). The model is "
+            "tied to the code on every run: synthetic GGUFs through the real WriteGGUF/Decode/GraphSize/GroupLayers, "
+            "full MemoryEstimate (incl. unexported fields), EstimatedVRAMByGPU and PredictServerFit compared exactly "
+            "with the oracle, boundaries of the estimator's comparisons found by bisection on the real code; the "
+            "real Scheduler.updateFreeSpace on generated GPU lists / loaded runners compared exactly; every clause "
+            "is also evaluated on the real results (estimator alone, and estimator on the scheduler-adjusted list).",
     "design_ref": "DESIGN.md §5 C16",
     "note": COMMON_NOTE + "Modelled, not verified: the quantities the estimator derives from the model file and "
             "the environment (GraphSize formulas, tensor sizes, KV sizes incl. float64 arithmetic, projector "
@@ -45,6 +50,10 @@ THEOREMS = [
     "OllamaVerif.C16.free_never_raised",
     "OllamaVerif.C16.free_within_total",
     "OllamaVerif.C16.sched_alloc_le_reported",
+    "OllamaVerif.C16.planned_plus_predicted_le_total",
+    "OllamaVerif.C16.byLibrary_partition",
+    "OllamaVerif.C16.fit_all_only_if_placed",
+    "OllamaVerif.C16.vramByGPU_is_planned_size",
 ]
 # The code variant the model must mirror (0 = pinned overhead comparisons, 1 = with fix C16-W1) is detected
 # by the driver on every run by probing the real estimator with the W1 input; it is the first argument of
@@ -94,7 +103,11 @@ def run(ctx):
              "without tensors, with/without output/token_embd, vision keys, projector files) x 1-8 GPUs (7 "
              "libraries, mixed groups) x num_gpu classes x overhead x ctx/batch/parallel; free memory random, at "
              "analytic admission/first-layer thresholds -1/0/+1, and at boundaries found by bisection on the real "
-             "estimator; a wrap-around stream (quantities near 2^64); distinct = distinct oracle command lines",
+             "estimator; a wrap-around stream (quantities near 2^64); up to 3 interleaved Library[_Variant] groups, "
+             "repeated GPU IDs. Scheduler driver: 1-8 GPUs (repeated/empty IDs, same ID in two libraries, free > "
+             "total), 0-4 loaded runners (nil llama, per-GPU predictions at total-free -1/0/+1, > total, wrapping "
+             "sums), composition with the real estimator on 3 synthetic models; distinct = distinct oracle command lines",
         explanation="Lean theorems about the executable model of EstimateGPULayers/PredictServerFit; model tied "
                     "to the code by exact comparison of the whole MemoryEstimate and fit result (L1) and every "
-                    "property clause evaluated on the real estimate against the real GPU list (L2)")
+                    "property clause evaluated on the real estimate against the real GPU list (L2); same for "
+                    "Scheduler.updateFreeSpace (L1 exact; L2 free-raised, sched-alloc-exceeds-reported)")
